@@ -24,11 +24,24 @@ def run_impl(case):
     gran = rnd.choice([g for g in (8, 16, 32, 64) if g <= dw])
     aw = 8
     bfeat = set(f for f in F if rnd.random() < .5)
-    arb = wishbone.Arbiter(addr_width=aw, data_width=dw, granularity=gran, features=bfeat)
-    intrs, ifeat, igran = [], [], []
     rnd2 = lib.rng_for(case["seed"], case["idx"], 818)      # history variations, own stream
+    # the feature set may be spelled with strings or with Feature members, as a set, a list or a tuple
+    spell = rnd2.choice(["str", "str", "enum", "list", "mixed"])
+    fspelled = {"str": set(bfeat), "enum": {wishbone.Feature(f) for f in bfeat}, "list": sorted(bfeat),
+                "mixed": tuple(wishbone.Feature(f) if k % 2 else f for k, f in enumerate(sorted(bfeat)))}[spell]
+    arb = wishbone.Arbiter(addr_width=aw, data_width=dw, granularity=gran, features=fspelled)
+    intrs, ifeat, igran = [], [], []
     pre = 0
+    ghosts = []
     for i in range(n):
+        if rnd2.random() < .12 and bfeat & {"err", "rty"}:
+            # an initiator that add() refuses (it lacks an input the shared bus drives) is not part of the
+            # arbiter: whatever it requests later must not show anywhere
+            gi = wishbone.Interface(addr_width=aw, data_width=dw, granularity=gran, features=set())
+            try:
+                arb.add(gi)
+            except ValueError:
+                ghosts.append(gi)
         if rnd2.random() < .08:
             from amaranth.hdl import Fragment
             Fragment.get(arb, None)        # an arbiter that was already elaborated still accepts initiators
@@ -47,7 +60,8 @@ def run_impl(case):
     obs, fails = [], []
     style = rnd.choice(["random", "starve", "lockhold", "sticky"])
     stats = {"cycles": 0, "handovers": 0, "busy_with_waiter": 0, "n": n, "lock_bus": int("lock" in bfeat), style: 1,
-             "free_with_waiter": 0, "elaborated_before_add": pre}
+             "free_with_waiter": 0, "elaborated_before_add": pre,
+             "refused_initiators_kept_requesting": len(ghosts), "features_spelled_" + spell: 1}
     bus = arb.bus
 
     def opt(present, v):
@@ -87,6 +101,8 @@ def run_impl(case):
                 sel = rnd.getrandbits(selw)
                 cti, bte = rnd.choice(CTI), rnd.getrandbits(2)
                 it = intrs[i]
+                for gi in ghosts:
+                    ctx.set(gi.cyc, 1); ctx.set(gi.stb, 1); ctx.set(gi.we, 1); ctx.set(gi.adr, 0xEE)
                 ctx.set(it.cyc, cyc); ctx.set(it.stb, stb); ctx.set(it.we, we); ctx.set(it.adr, adr)
                 ctx.set(it.dat_w, datw); ctx.set(it.sel, sel)
                 if "lock" in ifeat[i]: ctx.set(it.lock, lock)
